@@ -828,10 +828,9 @@ def readCopyUID : P (Nat × NumSet.Set × NumSet.Set) := do
   let (d2, dst) ← expectNumSet
   if d1 || d2 then fail else pure (v, src, dst)
 
-/-- `[code …]` of a status response; `tagged` selects the codes client.go handles in
+/-- the data of a response code; `tagged` selects the codes client.go handles in
     readResponseTagged (the command it completes has then already left the pending list) -/
-def respCode (fuel : Nat) (cfg : Cfg) (tagged : Bool) : P Unit := do
-  let code ← expectAtom
+def respCodeData (fuel : Nat) (cfg : Cfg) (tagged : Bool) (code : Bytes) : P Unit :=
   if code == strB "CAPABILITY" then capsLoop fuel
   else if tagged && code == strB "APPENDUID" then do
     expectSP; let v ← expectNumber; expectSP; let u ← expectNumber
@@ -849,7 +848,13 @@ def respCode (fuel : Nat) (cfg : Cfg) (tagged : Bool) : P Unit := do
   else if !tagged && code == strB "HIGHESTMODSEQ" then do expectSP; let _ ← expectModSeq; pure ()
   else if !tagged && code == strB "NOMODSEQ" then pure ()
   else do
-    if ← sp then discardUntilByte 93
+    -- [SP 1*<any TEXT-CHAR except "]">]
+    if ← sp then discardUntilByte 93 else pure ()
+
+/-- `[code …]` of a status response -/
+def respCode (fuel : Nat) (cfg : Cfg) (tagged : Bool) : P Unit := do
+  let code ← expectAtom
+  respCodeData fuel cfg tagged code
   expectSpecial 93
 
 /-- the `[code] text` part of a status response -/
